@@ -118,6 +118,13 @@ CHECKS["C07"] = dict(text="For the configuration matrix class (CUR / PCov-CUR, b
     "unexplained y AS OF THE MOST RECENT REFRESH (complete eigenbasis witness verified; pseudo-inverse square root witness verified for the feature "
     "direction), the choice being a maximiser over unselected items; exposed final residual orthogonal to all selections; duality and mixing=1=CUR as routes.", ref="6/C07",
     tech="TLC evaluates residual, target and leverage-score laws of the TLA+ specification on every recorded greedy decision (verified witnesses)")
+CHECKS["C17"] = dict(text="Recorded SparseKDE fits on integer lattices (1-3 dimensions; multi-modal, anisotropic, degenerate clouds; integer weights; "
+    "arbitrary grids; fpoints / fspread; free and periodic) are validated by TLC: every descriptor is assigned to a nearest grid point under the exact "
+    "(minimum-image) distance, grid weights are the exact sums of the assigned weights and total one, bandwidths are finite, symmetric and positive "
+    "definite (Sylvester minors in fixed point), score = sum of score_samples, and - when the specification finds the assignment tie-free - "
+    "log-densities are unchanged by translation, consistent permutation and whole-cell shifts of queries, descriptors and grid points. The closed form "
+    "of the mixture itself is not decided here (DESIGN.md section 8).", ref="6/C17",
+    tech="TLC validates recorded fits against the exact Voronoi-assignment / weight laws and symmetry registers of the TLA+ specification")
 NA = {}
 def main():
     props = [json.loads(l)["id"] for l in open(os.path.join(HERE, "properties.jsonl"))]
